@@ -541,3 +541,5 @@ def check(ctx):
     ctx.run('C05.R3', 'exactly one process + one advance per iteration; index = head & (len-1); body only when head != tail', r3_once_per_slot)
     ctx.run('C05.R4', 'int->pointer conversion dominated by F_SKIP==0 and by the non-reserved arm; reserved arms return', r4_filter_first)
     ctx.run('C05.R5', 'reserved user_data table: bookkeeping writers (+0) == explicit arms of process', r5_reserved_table)
+    from . import c18
+    ctx.run('C05.R6', 'the lengths that give the index masks are the sizes the kernel granted: Completions.entries_len = params.cq_entries (=C18.R4)', lambda r, facts: c18.ring_lengths(r, facts, modes=False, sq=False, floor=1))
